@@ -27,14 +27,14 @@ TRUSTED = [
 
 
 def pack(obs):
-    """digit string -> three primitive integers, base 4, 30 digits each, first digit lowest"""
+    """digit string -> five primitive integers, base 4, 30 digits each, first digit lowest"""
     out = []
-    for k in (0, 30, 60):
+    for k in (0, 30, 60, 90, 120):
         v = 0
         for j, ch in enumerate(obs[k:k + 30]):
             v += int(ch) << (2 * j)
         out.append(str(v))
-    if len(obs) > 90 or any(ch not in "0123" for ch in obs):
+    if len(obs) > 150 or any(ch not in "0123" for ch in obs):
         raise C.TieBroken("digit string not packable: %r" % obs)
     return " ".join(out)
 
